@@ -8,10 +8,10 @@ Sources == { Src("10.0.0.1:1000", "10.0.0.1", "ipv4", TRUE), Src("192.168.1.1:2"
              Src("[::1]:3", "::1", "ipv6", FALSE) }
 Tgt(kind, host, port) == [kind |-> kind, host |-> host, port |-> port]
 Targets == { Tgt("domain", "ex.com", 80), Tgt("ipv4", "10.2.3.4", 443), Tgt("ipv6", "2001:db8::1", 80), Tgt("domain", "7", 65535) }
-MC_ReqSet == [listener : {"l1", "l2"}, source : Sources, target : Targets, feature : {"TcpForward", "UdpForward"}]
+MC_ReqSet == [listener : {"l1", "l2"}, source : Sources, target : Targets, feature : {"TcpForward", "UdpForward", "UdpBind"}]
 
 MC_Connectors == [ A |-> [features |-> {"TcpForward"}, fails |-> FALSE],
-                   B |-> [features |-> {"TcpForward", "UdpForward"}, fails |-> FALSE],
+                   B |-> [features |-> {"TcpForward", "UdpForward", "UdpBind"}, fails |-> FALSE],
                    C |-> [features |-> {"TcpForward", "UdpForward"}, fails |-> TRUE] ]
 
 Rule(f, t) == [f |-> f, t |-> t]
